@@ -183,6 +183,35 @@ Definition C06_check (c : C06_case) : bool :=
   list_eqb (fun a b => obs_eqb (fst a) (fst b) && list_eqb snap_eqb (snd a) (snd b))
            (mrun (minit pts) ops) observed.
 
+(* AddMount(p, fs): p must be a valid name other than ".", not yet a mount point, and an existing DIRECTORY of the file
+   system its parent routes to (addMount opens path.Join(subPath, base) in fs.Mount(path.Dir(p))).  The new constituent
+   gets the next index; the table is a sync.Map, so the position of the new entry is immaterial (mp_scan_order_independent). *)
+Definition m_addmount (m : mstate) (p : str) (newfs : kv) : mstate * option cls :=
+  if negb (valid_path p) || str_eqb p dot then (m, Some EINVAL)
+  else if existsb (fun e => str_eqb (fst e) p) (m_table m) then (m, Some EEXIST)
+  else
+    let '(i, sub) := mount_route (m_table m) (path_dir p) in
+    let '(s1, r) := kv_stat (fs_at m i) (join2 sub (path_base p)) in
+    match r with
+    | inr e => (set_fs m i s1, Some (err_cls e))
+    | inl h =>
+      if is_dir (f_mode h)
+      then (mkM ((p, length (m_fs m)) :: m_table m) (list_set (m_fs m) i s1 ++ [newfs]), None)
+      else (set_fs m i s1, Some ENOTDIR)
+    end.
+
+(* (mount points set up as in [minit], preparing operations, the new point, observed error class, routes afterwards) *)
+Definition C06_addmount_case := (list str * list op * str * option cls * list (str * nat * str))%type.
+Definition optcls_eqb (a b : option cls) : bool :=
+  match a, b with Some x, Some y => cls_eqb x y | None, None => true | _, _ => false end.
+Definition C06_addmount_check (c : C06_addmount_case) : bool :=
+  let '(pts, ops, p, observed, routes) := c in
+  let m := fold_left (fun m o => fst (mstep m o)) ops (minit pts) in
+  let '(m', r) := m_addmount m p kv_init in
+  optcls_eqb r observed &&
+  forallb (fun rt => let '(q, i, sub) := rt in
+                     let '(i', sub') := mount_route (m_table m') q in Nat.eqb i i' && str_eqb sub sub') routes.
+
 Definition C06_route_case := (mtable * list (str * nat * str))%type.
 Definition C06_route_check (c : C06_route_case) : bool :=
   forallb (fun r => let '(p, i, sub) := r in
